@@ -74,9 +74,10 @@ Definition is_index_tail (s : str) : bool :=
 Definition head_matches (s h : str) : bool :=
   match strip_prefix h s with Some rest => is_index_tail rest | None => false end.
 
-(* regexp.match(var): Some head (group 2; group 1 is the whole string) or None *)
+(* regexp.match(var): Some head (group 2; group 1 is the whole string) or None.
+   With no heads at all the alternation is the empty pattern "()", which matches the empty head. *)
 Definition numbered_match (heads : list str) (s : str) : option str :=
-  find (head_matches s) heads.
+  find (head_matches s) (match heads with [] => [[]] | _ => heads end).
 
 (* ---------------------------------------------------------------- generic resolution *)
 Section Resolve.
@@ -309,11 +310,15 @@ Fixpoint cdot (a b : list cplx) : option cplx :=
   | _, _ => None
   end.
 
+Definition czero (a : cplx) : bool := Qeq_bool (fst a) 0 && Qeq_bool (snd a) 0.
+
+(* MathArray lets the number zero be added to / subtracted from an array of any shape; other scalars are refused *)
 Definition v_addsub (f : cplx -> cplx -> cplx) (a b : val) : option val :=
   match a, b with
   | VS x, VS y => Some (VS (f x y))
   | VV x, VV y => match zip_with f x y with Some r => Some (VV r) | None => None end
-  | _, _ => None
+  | VS x, VV y => if czero x then Some (VV (map (fun c => f x c) y)) else None
+  | VV x, VS y => if czero y then Some (VV (map (fun c => f c y) x)) else None
   end.
 
 Definition v_mul (a b : val) : option val :=
